@@ -7,11 +7,15 @@
    side pairing + area = Delaunay, dual = Voronoi).
    The post-processing code (voronization.py:82-204) IS modelled (Model/VoronoiPost.v, tied to the code by the
    correspondence run K of harness/c03.py on the same scipy Voronoi record); the C03_post_* theorems at the end
-   of this file are about that model.  NOT proved: post_correct (the model's output passes check_dual whenever the
-   Voronoi record is the exact Voronoi diagram of a periodic point set). *)
+   of this file are about that model.  post_correct is proved at the GRAPH level (C03_post_correct_*: for a record that
+   is periodic near the unit cell, Model/VoronoiPeriodic.pvor_ok, the returned lattice has exactly the Voronoi vertices
+   in the cell as vertices and exactly the ridges touching the cell, one per translation class, as edges, crossing =
+   cell offset, degree = number of ridges, 2E = 3V).  NOT proved: the last link to check_dual (that the seeds around a
+   kept vertex form the certificate's Delaunay triangle: needs ridge_points / Qhull's geometry) and the plaquettes. *)
 From Coq Require Import List ZArith Bool Arith QArith.
 From Koala Require Import Model.Lattice Model.Delaunay Proofs.DelaunayFacts.
 From Koala Require Import Model.VoronoiPost Proofs.VoronoiPostFacts.
+From Koala Require Import Model.VoronoiPeriodic Proofs.VoronoiPostCorrect.
 From Coq Require Import Sorted.
 Import ListNotations.
 Open Scope Z_scope.
@@ -347,3 +351,156 @@ Proof. vm_compute. repeat split; auto. Qed.
 Example C03_post_centroid3_nonvacuous :
   centroid3 [(0, 0); (3, 0); (0, 3)] [(0, 1); (0, 2); (0, -1)] [(0, 1); (1, 2); (2, 0)]%nat 0 = Ok (3, 3).
 Proof. vm_compute. reflexivity. Qed.
+
+(* ==================================================================================================
+   post_correct, graph level.  Hypothesis: the Voronoi record is PERIODIC NEAR THE UNIT CELL
+   (Model/VoronoiPeriodic.pvor_ok, a boolean evaluated by the harness on scipy's record, case by case):
+   0 < S; ridge indices in range; finite ridges join two different vertices; no two vertices coincide; no ridge
+   touching the cell is listed twice; and for every ridge crossing the cell boundary: the images of both ends in the cell
+   (0,S]^2 are vertices (replication exact), they differ (no vertex adjacent to its own periodic image), and the
+   ridge occurs again translated so that its OTHER end lies in the cell.  [pvor] is that statement as a Prop.
+   ================================================================================================== *)
+Theorem C03_post_pvor_ok_spec : forall S vs rv, pvor_ok S vs rv = true <-> pvor S vs rv.
+Proof. exact pvor_ok_iff. Qed.
+Print Assumptions C03_post_pvor_ok_spec.
+
+(* "de-duplication keeps exactly one representative per translation class", part 1: the np.unique key of the
+   periodic edge made from the segment p'->q' equals that of p->q  IFF  the segments are lattice translates of each
+   other (as unordered segments) *)
+Theorem C03_post_key_iff_translate : forall S vs p q p' q', 0 < S ->
+  In (wrap S p) vs -> In (wrap S q) vs -> In (wrap S p') vs -> In (wrap S q') vs ->
+  wrap S p <> wrap S q ->
+  (edge_key (pedge S vs p' q') = edge_key (pedge S vs p q) <-> translate_of S p q p' q').
+Proof. exact key_iff_translate. Qed.
+Print Assumptions C03_post_key_iff_translate.
+
+(* part 2: two kept crossing ridges that are translates of each other are the same edge *)
+Theorem C03_post_one_per_translation_class : forall S vs rv e e' p q p' q', pvor S vs rv ->
+  In e (dedup_edges (crossing_edges S vs rv)) -> In e' (dedup_edges (crossing_edges S vs rv)) ->
+  edge_is_seg S vs e p q -> edge_is_seg S vs e' p' q' -> wrap S p <> wrap S q ->
+  translate_of S p q p' q' -> e = e'.
+Proof. exact dedup_one_per_translation_class. Qed.
+Print Assumptions C03_post_one_per_translation_class.
+
+(* "every kept ridge joins kept vertices modulo the cell; crossing vector = cell offset difference": every returned
+   edge ((j,k),c) is a finite Voronoi ridge p - q touching the cell, with pos[j] = image of p in the cell, pos[k] =
+   image of q, c = cell(q) - cell(p) *)
+Theorem C03_post_edges_mod_cell : forall S vs rv e, pvor S vs rv -> In e (pbc_edges S vs rv) ->
+  exists r, In r rv /\ finite r = true /\ (1 <= count_in S vs r)%nat /\
+    (edge_is_seg S vs e (vat vs (fst r)) (vat vs (snd r)) \/
+     edge_is_seg S vs e (vat vs (snd r)) (vat vs (fst r))).
+Proof. exact pbc_edges_mod_cell. Qed.
+Print Assumptions C03_post_edges_mod_cell.
+
+(* ... so both ends lie in the cell and the edge vector pos[k] + S*c - pos[j] is the ridge vector q - p *)
+Theorem C03_post_edge_is_seg_geometry : forall S vs e p q, 0 < S -> edge_is_seg S vs e p q ->
+  let pj := nth (fst (fst e)) vs (0, 0) in
+  let pk := nth (snd (fst e)) vs (0, 0) in
+  in_unit S pj = true /\ in_unit S pk = true /\
+  fst pk + S * fst (snd e) - fst pj = fst q - fst p /\
+  snd pk + S * snd (snd e) - snd pj = snd q - snd p.
+Proof. exact edge_is_seg_geometry. Qed.
+Print Assumptions C03_post_edge_is_seg_geometry.
+
+(* part 3: all returned ridges (inside and crossing) have pairwise different keys: no periodic edge is returned twice,
+   not even reversed *)
+Theorem C03_post_edges_keys_NoDup : forall S vs rv, pvor S vs rv ->
+  NoDup (map edge_key (pbc_edges S vs rv)).
+Proof. exact pbc_edges_keys_NoDup. Qed.
+Print Assumptions C03_post_edges_keys_NoDup.
+
+(* conversely every finite ridge touching the cell is represented by an edge that is this ridge modulo the cell *)
+Theorem C03_post_edges_represent : forall S vs rv r, pvor S vs rv -> In r rv -> finite r = true ->
+  (1 <= count_in S vs r)%nat ->
+  exists e, In e (pbc_edges S vs rv) /\
+    (edge_is_seg S vs e (vat vs (fst r)) (vat vs (snd r)) \/
+     edge_is_seg S vs e (vat vs (snd r)) (vat vs (fst r))).
+Proof. exact pbc_edges_represent. Qed.
+Print Assumptions C03_post_edges_represent.
+
+(* "each vertex has degree = number of ridges at it": a vertex in the cell has as many edge ends among the returned
+   ridges as it has finite ridges in the Voronoi record (the two copies of a crossing ridge count once) *)
+Theorem C03_post_degree : forall S vs rv v, pvor S vs rv -> (v < length vs)%nat ->
+  in_unit S (nth v vs (0, 0)) = true ->
+  deg v (pbc_edges S vs rv) = length (ridges_at (Z.of_nat v) rv).
+Proof. exact pbc_degree. Qed.
+Print Assumptions C03_post_degree.
+
+(* the kept vertices are exactly the Voronoi vertices in the cell that have a finite ridge *)
+Theorem C03_post_kept_vertices : forall S vs rv x, pvor S vs rv ->
+  (In x (edge_ends (pbc_edges S vs rv)) <->
+   (x < length vs)%nat /\ in_unit S (nth x vs (0, 0)) = true /\ ridges_at (Z.of_nat x) rv <> []).
+Proof. exact pbc_kept_vertices. Qed.
+Print Assumptions C03_post_kept_vertices.
+
+(* the whole function, for ANY enumeration order of the surviving vertices accepted by the model: the returned
+   arrays are a well-formed lattice whose vertices are, each once and at its position, the Voronoi vertices in the
+   cell having a finite ridge, with degree = number of finite ridges; whose edges are exactly the finite ridges
+   touching the cell modulo the cell (lat_is_seg: ends at the images in the cell, crossing = cell difference), and no
+   two edges are the same periodic edge (j,k,c) ~ (k,j,-c) *)
+Theorem C03_post_correct_graph : forall order_of shift S points v S' vs ps ed cr,
+  shifted_vertices shift S points v = Ok (S', vs) ->
+  pvor S' vs (ridge_vertices v) ->
+  post_process order_of shift S points v = Ok (S', (ps, ed, cr)) ->
+  let rv := ridge_vertices v in
+  let L := mkLattice S' ps ed cr in
+  let order := order_of (edge_ends (pbc_edges S' vs rv)) in
+  wf_lattice L = true /\
+  NoDup order /\ length order = nV L /\ NoDup (pos L) /\
+  (forall n, (n < nV L)%nat ->
+     (nth n order 0 < length vs)%nat /\ pos_at L n = nth (nth n order 0%nat) vs (0, 0) /\
+     in_unit S' (pos_at L n) = true /\
+     count_ends L n = length (ridges_at (Z.of_nat (nth n order 0%nat)) rv)) /\
+  (forall x, (x < length vs)%nat -> in_unit S' (nth x vs (0, 0)) = true -> ridges_at (Z.of_nat x) rv <> [] ->
+     In x order) /\
+  (forall i, (i < nE L)%nat -> exists r, In r rv /\ finite r = true /\ (1 <= count_in S' vs r)%nat /\
+     (lat_is_seg L i (vat vs (fst r)) (vat vs (snd r)) \/ lat_is_seg L i (vat vs (snd r)) (vat vs (fst r)))) /\
+  (forall r, In r rv -> finite r = true -> (1 <= count_in S' vs r)%nat -> exists i, (i < nE L)%nat /\
+     (lat_is_seg L i (vat vs (fst r)) (vat vs (snd r)) \/ lat_is_seg L i (vat vs (snd r)) (vat vs (fst r)))) /\
+  (forall i i', (i < nE L)%nat -> (i' < nE L)%nat -> i <> i' ->
+     ledge L i <> ledge L i' /\ ledge L i <> rev_edge (ledge L i')).
+Proof. exact post_correct_graph. Qed.
+Print Assumptions C03_post_correct_graph.
+
+(* [lat_is_seg] in the lattice's own terms: Lattice.evec (pos[k] - pos[j] + scale*crossing) is the ridge vector *)
+Theorem C03_post_edge_vector : forall L i p q, lat_is_seg L i p q -> evec L i = (fst q - fst p, snd q - snd p).
+Proof. exact lat_is_seg_evec. Qed.
+Print Assumptions C03_post_edge_vector.
+
+(* "so the lattice is trivalent with 2N vertices and 3N edges", graph part: if moreover every Voronoi vertex in the
+   cell has exactly three finite ridges (trivalent_ok, evaluated per case) then every vertex of the returned lattice
+   has exactly three edge ends and 2E = 3V *)
+Theorem C03_post_correct_trivalent : forall order_of shift S points v S' vs ps ed cr,
+  shifted_vertices shift S points v = Ok (S', vs) ->
+  pvor S' vs (ridge_vertices v) -> trivalent_ok S' vs (ridge_vertices v) = true ->
+  post_process order_of shift S points v = Ok (S', (ps, ed, cr)) ->
+  let L := mkLattice S' ps ed cr in
+  (forall n, (n < nV L)%nat -> count_ends L n = 3%nat) /\ (2 * nE L = 3 * nV L)%nat.
+Proof. exact post_correct_trivalent. Qed.
+Print Assumptions C03_post_correct_trivalent.
+
+(* clause "vertices are ... (with vertex shifting: the centroids) of the triangles that fall in the unit cell": with
+   shift_vertices a vertex position is the sum of its three seeds on the scale 3S (C03_post_centroid3_spec), and the
+   model's test "in the cell (0,3S]^2" is exactly check_dual's test [in_cell] of the centroid [ref_point true a b c] *)
+Theorem C03_post_shifted_in_cell : forall S a b c,
+  in_unit (3 * S) (pt_add (pt_add a b) c) = in_cell S (ref_point true a b c).
+Proof. exact shifted_in_cell. Qed.
+Print Assumptions C03_post_shifted_in_cell.
+
+(* non-vacuity of [pvor_ok] on the toy record above (its crossing ridge (1,2) occurs again, translated, as (3,0)) *)
+Example C03_post_pvor_nonvacuous :
+  pvor_ok 4 (vertices ex_post_vor) (ridge_vertices ex_post_vor) = true /\
+  post_hyps false 4 [] ex_post_vor = Some (true, false).
+Proof. vm_compute. split; reflexivity. Qed.
+(* non-vacuity of [pvor_ok] AND [trivalent_ok]: the honeycomb torus with one hexagon (cell of side 4, vertices A = (1,1),
+   B = (3,3), the three A-B ridges with crossings (0,0), (-1,0), (0,-1), each crossing ridge present on both sides):
+   the model returns the two vertices and the three edges, every vertex has three edge ends *)
+Definition ex_post_hex : vor := mkVor
+  [(1, 1); (3, 3); (-1, 3); (3, -1); (5, 1); (1, 5)]
+  [(0, 1); (0, 2); (0, 3); (1, 4); (1, 5); (-1, 4)]
+  [(0, 1); (0, 2); (0, 3); (1, 4); (1, 5); (4, 5)]%nat.
+Example C03_post_trivalent_nonvacuous :
+  post_hyps false 4 [] ex_post_hex = Some (true, true) /\
+  post_process_sorted false 4 [] ex_post_hex =
+    Ok (4, ([(1, 1); (3, 3)], [(0, 1); (0, 1); (0, 1)]%nat, [(0, 0); (0, -1); (-1, 0)])).
+Proof. vm_compute. split; reflexivity. Qed.
